@@ -562,9 +562,9 @@ def c07_divergence(rng):
     (the NaN / 'prediction diverged' branch)."""
     bad = []
     n = 0
-    for trial in range(6):
-        order = rng.permutation([0, 1, 2])
-        big = int(order[0]) if trial % 2 == 0 else int(order[1])
+    combos = [(o, b) for o in itertools.permutations([0, 1, 2]) for b in (0, 1, 2)]      # every order x every diverging label
+    for trial, (order, big) in enumerate(combos):
+        order = np.array(order)
         for relift in (True, False):
             n += 1
             kp = pykoop.KoopmanPipeline(
